@@ -174,6 +174,27 @@ class ModeCheck:
             run.violation("mode", site, "not_empty:" + K.diff_class(d), "fresh file differs from an empty file at %s: %s / %s" % d)
 
 
+@op("overwrite_reopen")
+class OverwriteReopen:
+    """close the session and start over on the same path with FileMode.Overwrite (the history
+    continues on an empty file)."""
+
+    def gen(self, run, rng):
+        return {"op": "overwrite_reopen"}
+
+    def do(self, run, o):
+        fs = run.fstate()
+        if fs is None or fs.real is None:
+            return res(NOOP)
+        run.close_file(fs)
+        run.drop_handles()
+        r = run.call(lambda: run.open_file(fs.path, "ow", fs.compr, fs.auto_ts))
+        if r[0] == "exc":
+            run.violation("reopen_failed", "overwrite_reopen", type(r[1]).__name__, str(r[1])[:200])
+        run.stats["overwrite_of_existing_file"] += 1
+        return res(OK)
+
+
 # ------------------------------------------------------------------------------------------
 # crash after flush / close (C17)
 # ------------------------------------------------------------------------------------------
